@@ -543,10 +543,146 @@ func (o *Origins) callEx(c *ssa.Call, idx int) *Ex {
 		// dynamic call through a function value
 		name = "dyn:" + o.Of(c.Call.Value).String()
 	}
+	if e := o.newHelperResult(c, d, idx); e != nil {
+		return e
+	}
+	if d.Name == "strings.(*Builder).String" || d.Name == "bytes.(*Buffer).String" || d.Name == "bytes.(*Buffer).Bytes" {
+		if e := o.builderContent(c); e != nil {
+			return e
+		}
+	}
 	if c.Call.Signature().Results().Len() <= 1 {
 		idx = -1
 	}
 	return &Ex{K: "call", S: name, Args: args, Call: c, Idx: idx, V: c}
+}
+
+// newHelperResult: a non-error result of a call to a module function that does not exist on the
+// reference tree (a helper extracted later) is replaced by the provenance of what the helper returns
+// on success, evaluated in the calling context. Rules name the functions of the reference tree as
+// atoms; code moved into a new function keeps the provenance it had inline. The error result stays
+// a call atom (guards on it are resolved by the nil-return summaries).
+func (o *Origins) newHelperResult(c *ssa.Call, d *CallDesc, idx int) *Ex {
+	callee := d.Static
+	if callee == nil || callee.Blocks == nil || callee.Parent() != nil || !o.p.IsNewFunc(callee) || o.depth >= 4 {
+		return nil
+	}
+	res := c.Call.Signature().Results()
+	i := idx
+	if res.Len() == 1 {
+		i = 0
+	}
+	if i < 0 || i >= res.Len() || IsErrorType(res.At(i).Type()) {
+		return nil
+	}
+	if o.p.expanding[callee] {
+		return nil
+	}
+	o.p.expanding[callee] = true
+	defer delete(o.p.expanding, callee)
+	oc := o.Enter(callee, c)
+	var rets []*ssa.Return
+	if res.Len() > 0 && IsErrorType(res.At(res.Len()-1).Type()) {
+		rets = oc.SuccessReturns()
+	} else {
+		rets = Returns(callee)
+	}
+	if len(rets) == 0 {
+		return nil
+	}
+	var alts []*Ex
+	for _, r := range rets {
+		if i >= len(r.Results) {
+			return nil
+		}
+		alts = append(alts, oc.Of(r.Results[i]))
+	}
+	return mkPhi(alts)
+}
+
+// builderContent models a local strings.Builder / bytes.Buffer as the concatenation it holds when read:
+// acc(+; first write; per-iteration writes...), the same canonical form as `s := a; for ... { s += x }`.
+// Only the simple discipline is modelled: the builder is a local that is used by nothing but
+// Write*/String calls; the writes outside loops are unconditional (their block dominates the read) and
+// come first; the writes inside a loop happen on every iteration of that loop (their block dominates
+// the latches) and the loop ends before the read. Anything else keeps the opaque call expression.
+func (o *Origins) builderContent(read *ssa.Call) *Ex {
+	if len(read.Call.Args) == 0 {
+		return nil
+	}
+	cell, ok := read.Call.Args[0].(*ssa.Alloc)
+	if !ok || cell.Referrers() == nil {
+		return nil
+	}
+	type write struct {
+		call *ssa.Call
+		loop *Loop
+	}
+	var writes []write
+	for _, r := range *cell.Referrers() {
+		call, ok := r.(*ssa.Call)
+		if !ok || len(call.Call.Args) == 0 || call.Call.Args[0] != ssa.Value(cell) {
+			if _, isDbg := r.(*ssa.DebugRef); isDbg {
+				continue
+			}
+			return nil
+		}
+		name := o.p.Describe(call).Name
+		switch {
+		case call == read:
+		case strings.HasSuffix(name, ").WriteString") || strings.HasSuffix(name, ").Write") || strings.HasSuffix(name, ").WriteByte") || strings.HasSuffix(name, ").WriteRune"):
+			if len(call.Call.Args) != 2 {
+				return nil
+			}
+			writes = append(writes, write{call, o.Loops.InnermostContaining(call.Block())})
+		default:
+			return nil
+		}
+	}
+	if len(writes) == 0 || o.Loops.InnermostContaining(read.Block()) != nil {
+		return nil
+	}
+	sort.Slice(writes, func(i, j int) bool {
+		a, b := writes[i].call, writes[j].call
+		if a.Block() != b.Block() {
+			return a.Block().Index < b.Block().Index
+		}
+		return instrIndex(a) < instrIndex(b)
+	})
+	var init *Ex
+	var steps []*Ex
+	seenLoop := false
+	for _, w := range writes {
+		arg := o.Of(w.call.Call.Args[1])
+		if w.loop == nil {
+			if seenLoop || !w.call.Block().Dominates(read.Block()) {
+				return nil
+			}
+			if init == nil {
+				init = arg
+			} else {
+				init = mk("bin", "+", init, arg)
+			}
+			continue
+		}
+		seenLoop = true
+		for _, latch := range w.loop.Latches {
+			if !w.call.Block().Dominates(latch) {
+				return nil
+			}
+		}
+		if w.loop.Blocks[read.Block()] {
+			return nil
+		}
+		steps = append(steps, arg)
+	}
+	if init == nil {
+		init = mk("const", "\"\"")
+	}
+	if len(steps) == 0 {
+		return init
+	}
+	return mk("acc", "+", append([]*Ex{init}, steps...)...)
 }
 
 func (o *Origins) phi(ph *ssa.Phi) *Ex {
